@@ -248,6 +248,8 @@ class Run:
         try:
             if kind == "async":
                 simloop.run(self._run_async)
+            elif sc.get("threads") and len(sc["actors"]) > 1:
+                self._run_threads(kind)
             else:
                 self._run_sync(kind)
         except simgrpc.SimRunaway as e:
@@ -304,6 +306,34 @@ class Run:
                         SYNC_EXEC[op["kind"]](self, client, op)
                     finally:
                         CURRENT_OP.reset(tok)
+        finally:
+            if kind == "rest":
+                simhttp.uninstall()
+
+    def _run_threads(self, kind):
+        """Sync flavour, one REAL thread per actor, all sharing the client(s); interleaving decided by simthreads."""
+        from . import simhttp, simthreads
+        if kind == "rest":
+            simhttp.install(self.sim)
+        sched = simthreads.ThreadSched(self.sc.get("sched_seed", 0))
+
+        def body(ai, a):
+            def fn():
+                for op in a["ops"]:
+                    if op.get("delay"):
+                        CLOCK.advance(op["delay"])
+                    client = self._sync_client(op["service"], kind, ai)
+                    self.cur_channel[op["id"]] = getattr(self.channels.get(self._last_key), "cid", None)
+                    tok = CURRENT_OP.set(op["id"])
+                    try:
+                        SYNC_EXEC[op["kind"]](self, client, op)
+                    finally:
+                        CURRENT_OP.reset(tok)
+            return fn
+        try:
+            self.sim.ev("threads", n=len(self.sc["actors"]))
+            sched.run([body(i, a) for i, a in enumerate(self.sc["actors"])], [a.get("start", 0.0) for a in self.sc["actors"]])
+            self.sim.ev("threads_done", switches=sched.switches)
         finally:
             if kind == "rest":
                 simhttp.uninstall()
